@@ -6,6 +6,7 @@ import (
 	"fmt"
 	"hash/fnv"
 	"os"
+	"regexp"
 	"runtime"
 	"runtime/debug"
 	"sort"
@@ -121,6 +122,7 @@ func startWatchdog(limit time.Duration, hangPath string) {
 	go func() {
 		last := beat.Load()
 		lastChange := time.Now()
+		ticks := 0
 		for {
 			time.Sleep(250 * time.Millisecond)
 			b := beat.Load()
@@ -130,11 +132,12 @@ func startWatchdog(limit time.Duration, hangPath string) {
 			} else if time.Since(lastChange) > wd.limit {
 				dumpHang(hangPath, "no quiescence within "+wd.limit.String())
 			}
-			var ms runtime.MemStats
-			if b%64 == 0 {
+			ticks++
+			if ticks%4 == 0 {
+				var ms runtime.MemStats
 				runtime.ReadMemStats(&ms)
-				if ms.HeapAlloc > 6<<30 {
-					dumpHang(hangPath, "heap above 6GiB")
+				if ms.HeapAlloc > 3<<30 {
+					dumpHang(hangPath, "heap above 3GiB")
 				}
 			}
 		}
@@ -202,12 +205,35 @@ type knownFile struct {
 	Findings []struct {
 		Property string `json:"property"`
 		Key      string `json:"key"`
+		KeyRegex string `json:"key_regex"`
 		Status   string `json:"status"`
 	} `json:"findings"`
 }
 
-func loadKnown(prop string) map[string]bool {
-	out := map[string]bool{}
+// Known is the set of recorded (not repaired) findings of one property: exact keys and key patterns.
+type Known struct {
+	exact map[string]bool
+	res   []*regexp.Regexp
+	names []string
+}
+
+func (k *Known) Match(key string) (string, bool) {
+	if k == nil {
+		return "", false
+	}
+	if k.exact[key] {
+		return key, true
+	}
+	for i, re := range k.res {
+		if re.MatchString(key) {
+			return k.names[i], true
+		}
+	}
+	return "", false
+}
+
+func loadKnown(prop string) *Known {
+	out := &Known{exact: map[string]bool{}}
 	p := os.Getenv("VERIF_KNOWN")
 	if p == "" {
 		return out
@@ -222,7 +248,14 @@ func loadKnown(prop string) map[string]bool {
 	}
 	for _, f := range kf.Findings {
 		if f.Property == prop && f.Status == "known" {
-			out[f.Key] = true
+			if f.KeyRegex != "" {
+				if re, err := regexp.Compile("^(?:" + f.KeyRegex + ")$"); err == nil {
+					out.res = append(out.res, re)
+					out.names = append(out.names, f.Key)
+				}
+			} else {
+				out.exact[f.Key] = true
+			}
 		}
 	}
 	return out
@@ -235,9 +268,9 @@ func hash64(s string) uint64 {
 }
 
 // firstUnknown returns the first violation of the run whose key is not a known finding.
-func firstUnknown(r *Run, known map[string]bool) *Violation {
+func firstUnknown(r *Run, known *Known) *Violation {
 	for _, v := range r.Viols {
-		if !known[v.Key()] {
+		if _, ok := known.Match(v.Key()); !ok {
 			return v
 		}
 	}
@@ -342,6 +375,7 @@ func mainSearch(t *testing.T, h Harness, out string) {
 	maxRuns := envInt("VERIF_RUNS", 0)
 	replayDir := os.Getenv("VERIF_REPLAY_DIR")
 	known := loadKnown(h.Prop)
+	globalKnown = known
 
 	progress := (*os.File)(nil)
 	if out != "" {
@@ -421,9 +455,11 @@ func mainSearch(t *testing.T, h Harness, out string) {
 		if len(wo.Samples) < 3 && r.Sample != nil && (r.Nontrivial || i > 8) {
 			wo.Samples = append(wo.Samples, map[string]any{"seed": ds, "case": r.Sample, "events": tail(r.Log(), 40)})
 		}
+		hitOnce := map[string]bool{}
 		for _, v := range r.Viols {
-			if known[v.Key()] {
-				wo.KnownHits[v.Key()]++
+			if name, ok := known.Match(v.Key()); ok && !hitOnce[name] {
+				hitOnce[name] = true
+				wo.KnownHits[name]++
 			}
 		}
 		if v := firstUnknown(r, known); v != nil {
